@@ -149,7 +149,7 @@ def run(ctx):
         types=len(T),
         failures=failures[:20],
     )
-    ctx.need(len(observed) >= 0.98 * len(cases), "only %d of %d cases observed" % (len(observed), len(cases)))
+    ctx.need(len(observed) >= 0.98 * len({c.key for c in cases}), "only %d of %d cases observed" % (len(observed), len(cases)))
 
 
 def replay(ctx, rep):
